@@ -10,22 +10,21 @@ attribute [local simp] St.modGen St.modSub St.drop
 structure GensOnly (s s' : St) : Prop where
   subs : s'.subs = s.subs
   nsubs : s'.nsubs = s.nsubs
-  panics : s'.panics = s.panics
   ngens : s'.ngens = s.ngens
   drops : s'.drops = s.drops
 
-theorem GensOnly.refl (s : St) : GensOnly s s := ⟨rfl, rfl, rfl, rfl, rfl⟩
+theorem GensOnly.refl (s : St) : GensOnly s s := ⟨rfl, rfl, rfl, rfl⟩
 theorem GensOnly.trans {a b c : St} (h1 : GensOnly a b) (h2 : GensOnly b c) : GensOnly a c :=
-  ⟨h2.subs.trans h1.subs, h2.nsubs.trans h1.nsubs, h2.panics.trans h1.panics, h2.ngens.trans h1.ngens, h2.drops.trans h1.drops⟩
+  ⟨h2.subs.trans h1.subs, h2.nsubs.trans h1.nsubs, h2.ngens.trans h1.ngens, h2.drops.trans h1.drops⟩
 
 theorem pSubnUnsub_go (g : Nat) (s : St) : GensOnly s (pSubnUnsub g s) := by
   unfold pSubnUnsub; split
   · exact GensOnly.refl s
-  · split <;> exact ⟨rfl, rfl, rfl, rfl, rfl⟩
+  · split <;> exact ⟨rfl, rfl, rfl, rfl⟩
 
 theorem pUnsubscribe_go (g : Nat) (s : St) : GensOnly s (pUnsubscribe g s) := by
   unfold pUnsubscribe; split
-  · have h1 : GensOnly s (s.modGen g fun x => { x with pStatus := 2 }) := ⟨rfl, rfl, rfl, rfl, rfl⟩
+  · have h1 : GensOnly s (s.modGen g fun x => { x with pStatus := 2 }) := ⟨rfl, rfl, rfl, rfl⟩
     exact h1.trans (pSubnUnsub_go g _)
   · exact GensOnly.refl s
 
@@ -38,12 +37,12 @@ theorem foldl_go {α : Type} (f : St → α → St) (hf : ∀ s a, GensOnly s (f
 theorem ssUnsub_go (g : Nat) (s : St) : GensOnly s (ssUnsub g s) := by
   unfold ssUnsub; split
   · exact GensOnly.refl s
-  · have h1 : GensOnly s (s.modGen g fun x => { x with ssDone := true, ssFins := [] }) := ⟨rfl, rfl, rfl, rfl, rfl⟩
+  · have h1 : GensOnly s (s.modGen g fun x => { x with ssDone := true, ssFins := [] }) := ⟨rfl, rfl, rfl, rfl⟩
     exact h1.trans (foldl_go _ (fun s p => pUnsubscribe_go p s) _ _)
 
 theorem reset_go (g : Nat) (s : St) : GensOnly s (reset g s) := by
   unfold reset clearShared
-  exact (ssUnsub_go g s).trans ⟨rfl, rfl, rfl, rfl, rfl⟩
+  exact (ssUnsub_go g s).trans ⟨rfl, rfl, rfl, rfl⟩
 
 theorem zeroReset_go (fl : Flags) (g : Nat) (s : St) : GensOnly s (zeroReset fl g s) := by
   unfold zeroReset; split
@@ -55,32 +54,31 @@ theorem zeroReset_go (fl : Flags) (g : Nat) (s : St) : GensOnly s (zeroReset fl 
 structure Only (i : Nat) (s s' : St) : Prop where
   other : ∀ k, k ≠ i → s'.subs k = s.subs k
   nsubs : s'.nsubs = s.nsubs
-  panics : s'.panics = s.panics
   ngens : s'.ngens = s.ngens
 
-theorem Only.refl (i : Nat) (s : St) : Only i s s := ⟨fun _ _ => rfl, rfl, rfl, rfl⟩
+theorem Only.refl (i : Nat) (s : St) : Only i s s := ⟨fun _ _ => rfl, rfl, rfl⟩
 theorem Only.trans {i : Nat} {a b c : St} (h1 : Only i a b) (h2 : Only i b c) : Only i a c :=
-  ⟨fun k hk => (h2.other k hk).trans (h1.other k hk), h2.nsubs.trans h1.nsubs, h2.panics.trans h1.panics, h2.ngens.trans h1.ngens⟩
+  ⟨fun k hk => (h2.other k hk).trans (h1.other k hk), h2.nsubs.trans h1.nsubs, h2.ngens.trans h1.ngens⟩
 theorem GensOnly.only {s s' : St} (h : GensOnly s s') (i : Nat) : Only i s s' :=
-  ⟨fun k _ => by rw [h.subs], h.nsubs, h.panics, h.ngens⟩
+  ⟨fun k _ => by rw [h.subs], h.nsubs, h.ngens⟩
 
 theorem casClose_only (i : Nat) (s : St) : Only i s (casClose i s) := by
   unfold casClose; split
-  · exact ⟨fun k hk => by simp [hk], rfl, rfl, rfl⟩
+  · exact ⟨fun k hk => by simp [hk], rfl, rfl⟩
   · exact Only.refl i s
 
 theorem teardownT_only (fl : Flags) (i g : Nat) (s : St) : Only i s (teardownT fl i g s) := by
   unfold teardownT
-  have h1 : Only i (casClose i s) (decRef (casClose i s)) := ⟨fun _ _ => rfl, rfl, rfl, rfl⟩
+  have h1 : Only i (casClose i s) (decRef (casClose i s)) := ⟨fun _ _ => rfl, rfl, rfl⟩
   exact ((casClose_only i s).trans h1).trans ((zeroReset_go fl g _).only i)
 
 theorem dSubnUnsub_only (fl : Flags) (i : Nat) (s : St) : Only i s (dSubnUnsub fl i s) := by
   unfold dSubnUnsub; split
   · exact Only.refl i s
   · have h1 : Only i s (s.modSub i fun d => { d with done := true, delFin := none, tearFin := none }) :=
-      ⟨fun k hk => by simp [hk], rfl, rfl, rfl⟩
+      ⟨fun k hk => by simp [hk], rfl, rfl⟩
     have h2 : ∀ (o : Option Nat) (u : St), Only i u (runDel i o u) := by
-      intro o u; cases o <;> exact ⟨fun _ _ => rfl, rfl, rfl, rfl⟩
+      intro o u; cases o <;> exact ⟨fun _ _ => rfl, rfl, rfl⟩
     have h3 : ∀ (o : Option Nat) (u : St), Only i u (runTear fl i o u) := by
       intro o u; cases o
       · exact Only.refl i u
@@ -89,19 +87,19 @@ theorem dSubnUnsub_only (fl : Flags) (i : Nat) (s : St) : Only i s (dSubnUnsub f
 
 theorem dUnsubscribe_only (fl : Flags) (i : Nat) (s : St) : Only i s (dUnsubscribe fl i s) := by
   unfold dUnsubscribe; split
-  · have h1 : Only i s (s.modSub i fun d => { d with status := 2 }) := ⟨fun k hk => by simp [hk], rfl, rfl, rfl⟩
+  · have h1 : Only i s (s.modSub i fun d => { d with status := 2 }) := ⟨fun k hk => by simp [hk], rfl, rfl⟩
     exact h1.trans (dSubnUnsub_only fl i _)
   · exact Only.refl i s
 
 theorem dNext_only (i : Nat) (v : Int) (s : St) : Only i s (dNext i v s) := by
   unfold dNext; split
-  · exact ⟨fun k hk => by simp [hk], rfl, rfl, rfl⟩
-  · exact ⟨fun _ _ => rfl, rfl, rfl, rfl⟩
+  · exact ⟨fun k hk => by simp [hk], rfl, rfl⟩
+  · exact ⟨fun _ _ => rfl, rfl, rfl⟩
 
 theorem dDeliver_only (i : Nat) (t : Ev) (s : St) : Only i s (dDeliver i t s) := by
   unfold dDeliver; split
-  · exact ⟨fun k hk => by simp [hk], rfl, rfl, rfl⟩
-  · exact ⟨fun _ _ => rfl, rfl, rfl, rfl⟩
+  · exact ⟨fun k hk => by simp [hk], rfl, rfl⟩
+  · exact ⟨fun _ _ => rfl, rfl, rfl⟩
 
 theorem dTerm_only (fl : Flags) (i : Nat) (t : Ev) (s : St) : Only i s (dTerm fl i t s) :=
   (dDeliver_only i t s).trans (dSubnUnsub_only fl i _)
@@ -203,7 +201,7 @@ theorem pDecide_sk (fl : Flags) (g : Nat) (t : Ev) (s : St) : SubjKeep s (pDecid
 
 theorem pDecide_go (fl : Flags) (g : Nat) (t : Ev) (s : St) : GensOnly s (pDecide fl g t s) := by
   unfold pDecide
-  cases t <;> simp only [] <;> split <;> first | exact reset_go g s | exact ⟨rfl, rfl, rfl, rfl, rfl⟩
+  cases t <;> simp only [] <;> split <;> first | exact reset_go g s | exact ⟨rfl, rfl, rfl, rfl⟩
 
 
 end Ro.Share
